@@ -4,6 +4,7 @@ import Driver.C08
 import Driver.Fields
 import Driver.Lines
 import Driver.FilesH
+import Driver.Misc
 open Lean Driver
 
 def dispatch (j : Json) : R Json := do
@@ -25,6 +26,12 @@ def dispatch (j : Json) : R Json := do
   | "c12" => Driver.FilesH.handleC12 j
   | "c13" => Driver.FilesH.handleC13 j
   | "c18" => Driver.FilesH.handleC18 j
+  | "c19" => Driver.Misc.handleC19 j
+  | "c15" => Driver.Misc.handleC15 j
+  | "c20" => Driver.Misc.handleC20 j
+  | "c17" => Driver.Misc.handleC17 j
+  | "c14" => Driver.Misc.handleC14 j
+  | "all" => Driver.Misc.handleAll j
   | _ => throw s!"unknown op {op}"
 
 partial def loop (inp out : IO.FS.Stream) : IO Unit := do
